@@ -273,9 +273,12 @@ def check(ck, sl, errors):
                 continue
             n5 += 1
             con = "%s.%s.%s (added override of a standard-library hook)" % (ci.module, ci.qual, mname)
+            if _pure_delegation(fi, mname):
+                ck.ok(rule, con, "logs lazily and delegates to the base implementation with the same arguments", fi.loc())
+                continue
             if mname in SERVE_ERROR_HOOKS:
                 risky = [st for st in ast.walk(fi.node) if isinstance(st, ast.stmt) and not isinstance(st, (ast.FunctionDef, ast.If, ast.Try, ast.With, ast.For, ast.While))
-                         and st is not fi.node and stmt_may_raise(st) and not _guarded(fi.node, st)]
+                         and st is not fi.node and stmt_may_raise(st) and not _guarded(fi.node, st) and not _is_base_call(st, fi, mname)]
                 if risky:
                     ck.bad(rule, con, "%s.%s overrides %s, which the serve loop calls when handling a request has failed; its statement `%s` can "
                            "raise in turn (the arguments are evaluated before the logger sees them), and an exception escaping %s ends "
@@ -287,6 +290,50 @@ def check(ck, sl, errors):
                 errors.append(AnalysisError("%s.%s overrides the standard-library method %s: the behaviour of the base class the rules rely on is replaced"
                                     % (ci.module, ci.qual, mname)))
     ck.ok(rule, "standard-library hooks overridden by classes of the slice", "%d examined" % n5, "")
+
+
+def _base_call_expr(e, fi, mname):
+    """super().<mname>(<own parameters, in order>) / super(C, self).<mname>(...) / Base.<mname>(self, ...)"""
+    if not (isinstance(e, ast.Call) and isinstance(e.func, ast.Attribute) and e.func.attr == mname):
+        return False
+    params = [p for p in fi.params if p != "self"]
+    recv = e.func.value
+    args = list(e.args)
+    if isinstance(recv, ast.Call) and isinstance(recv.func, ast.Name) and recv.func.id == "super":
+        pass
+    elif isinstance(recv, (ast.Name, ast.Attribute)) and args and isinstance(args[0], ast.Name) and args[0].id == "self":
+        args = args[1:]
+    else:
+        return False
+    if any(isinstance(a, ast.Starred) for a in args) or any(k.arg is None for k in e.keywords):
+        return False
+    got = [a.id if isinstance(a, ast.Name) else None for a in args] + [k.value.id if isinstance(k.value, ast.Name) and k.value.id == k.arg else None for k in e.keywords]
+    return got == params[:len(got)] and len(got) == len(params)
+
+
+def _is_base_call(st, fi, mname):
+    v = st.value if isinstance(st, (ast.Expr, ast.Return)) else None
+    return v is not None and _base_call_expr(v, fi, mname)
+
+
+def _pure_delegation(fi, mname):
+    """docstring, lazy logger calls (possibly under `if <logger>.isEnabledFor(...)`), then the base implementation called with the
+    method's own parameters as last statement"""
+    from vlib.model import is_logging_call
+    body = list(fi.node.body)
+    if body and isinstance(body[0], ast.Expr) and isinstance(body[0].value, ast.Constant):
+        body = body[1:]
+    if not body or not _is_base_call(body[-1], fi, mname):
+        return False
+
+    def lazy_log(st):
+        if isinstance(st, ast.Expr) and isinstance(st.value, ast.Call) and is_logging_call(st.value):
+            return all(isinstance(a, (ast.Name, ast.Constant)) or (isinstance(a, ast.Attribute) and isinstance(a.value, ast.Name) and a.value.id == "self")
+                       for a in st.value.args[1:]) and (not st.value.args or isinstance(st.value.args[0], ast.Constant))
+        if isinstance(st, ast.If) and not st.orelse and "isEnabledFor" in dump(st.test):
+            return all(lazy_log(x) for x in st.body)
+        return False
+    return all(lazy_log(st) for st in body[:-1])
 
 
 def _guarded(fn, st):
